@@ -9,13 +9,15 @@ from oracle_dense import mpo_to_mat, mpo_mask_violation, basis_charges
 
 ID = 'C06'
 RULE = ('cases = (model in {ising, xxz spin-1/2, xxz spin-1, bose-hubbard d=1..5, fermi-hubbard, linear fermionic c / a}, L from 1 to dense reach, parameters drawn '
-        'independently from {0, +-1, +-0.5, generic floats in +-[0.1,3]} so that vanishing couplings and sign changes are frequent; complex coefficient vectors with zeros for the '
+        'independently from {0, +-1, +-0.5, generic floats in +-[0.1,3], tiny 1e-22..1e-5 and huge 1e3..1e6 magnitudes} so that vanishing couplings and sign changes are frequent; complex coefficient vectors with zeros for the '
         'linear fermionic operators). Non-trivial: reference operator non-zero and L >= 2. Identically-zero operators are outside the domain and only counted.')
 ASSUME = ['reference operators are built in the harness from occupation-number states / spin matrices (Jordan-Wigner sign = parity of occupied modes to the right)',
           'dense reach d^L <= 1024 (thorough 4096); tolerance 1e-12 max(1, ||H_ref||)']
 
 PARAM = st.one_of(st.sampled_from([0.0, 1.0, -1.0, 0.5, -0.5]), st.sampled_from([0.0, 1.0, -1.0]),
-                  st.floats(0.1, 3.0), st.floats(-3.0, -0.1))
+                  st.floats(0.1, 3.0), st.floats(-3.0, -0.1),
+                  # every parameter value: weak couplings next to O(1) ones, and uniformly tiny / huge scales
+                  st.sampled_from([1e-9, -1e-9, 1e-5, 3e-12, 1e-22, -2.5e-16, 1e6, -4e3]))
 
 # expected physical charge per local basis state (what the model conserves); the MPO's `qd` must separate
 # local states at least as finely
@@ -87,7 +89,7 @@ def check_model(case, rec):
     M = mpo_to_mat([np.asarray(a, dtype=complex) for a in mpo.A])
     require(M.shape == Href.shape, 'dense matrix has the wrong shape', got=M.shape, want=Href.shape)
     err = np.linalg.norm(M - Href)
-    scale = max(1.0, nref)
+    scale = nref if nref > 0 else 1.0     # every model is linear in its parameters: errors are relative to the operator norm
     require(err <= 1e-12 * scale * max(1, L), 'MPO matrix differs from the textbook Hamiltonian', err=err, norm=nref)
     rec.metric('dense_err', err / scale)
     own = mpo.as_matrix()
